@@ -3,7 +3,7 @@ import itertools
 from vlib import Rng
 import sockgen as G
 
-RULE = ("family sock: header sets of varying block length x body write sequences x acknowledgement compositions: all compositions of "
+RULE = ("status codes of 1..5 digits and empty / long reasons among the header sets; " "family sock: header sets of varying block length x body write sequences x acknowledgement compositions: all compositions of "
         "small totals, and compositions aimed at H-1, H, H+1 (H = header block length), interleaved with later writes; "
         "non-trivial = distinct case")
 ASSUMPTIONS = ["acknowledgements never exceed the bytes written so far (what a transport can do)"]
@@ -26,7 +26,10 @@ def cases(tier, seed, ctx=None):
     ver = ctx["probe"]("version", [[]])[0][0]
     env = [ver, []]
     hdrsets = [[], [G.SetHeader(b"A", b"1")], [G.SetHeader(b"Content-Length", b"5"), G.SetHeader(b"X", b"yy")],
-               [G.SetStatus(404, b"N")], [G.SetHeaders([(b"S", b"a"), (b"S", b"b")])]]
+               [G.SetStatus(404, b"N")], [G.SetHeaders([(b"S", b"a"), (b"S", b"b")])],
+               # the length of the header block depends on every part of it: status codes of 1, 2, 4 and 5 digits, long and empty reasons
+               [G.SetStatus(7, b"SEVEN")], [G.SetStatus(99)], [G.SetStatus(1000, b"")], [G.SetStatus(12345, b"A LONG REASON PHRASE " * 3)],
+               [G.SetStatus(0)], [G.SetStatus(200, b"")]]
     # H for "HTTP/1.0 200 OK\r\n\r\n" is 19
     for hs in hdrsets:
         head_ops = [G.Construct] + [G.App(a) for a in hs]
